@@ -56,6 +56,14 @@ static bool hint_enumeration(const zp::Zone& z, zp::Handle& h, bool full, vf::Ca
     std::vector<int64_t> pts;
     for (size_t j = (i >= 2 ? i - 2 : 0); j < std::min(a.size(), i + 4); ++j) for (int d : {-1, 0, 1}) if (refcal::fits64((i128)a[j] + d)) pts.push_back(a[j] + d);
     pts.push_back(a.front()); pts.push_back(a.back()); pts.push_back(a[a.size() / 2]); pts.push_back(a[(i * 7 + 3) % a.size()]);
+    // entries a power-of-two number of positions away from the primed interval (a search that gallops from the
+    // remembered position probes exactly there); the anchor list has a few points that are not table entries, so one
+    // position further is taken as well
+    for (size_t s : {(size_t)4, (size_t)8, (size_t)16, (size_t)32})
+      for (size_t e : {(size_t)0, (size_t)1}) {
+        if (i + s + e < a.size()) pts.push_back(a[i + s + e]);
+        if (i >= s + e) pts.push_back(a[i - s - e]);
+      }
     for (int64_t t : pts) {
       // instant -> civil with the hint set to interval i
       (void)h.lookup(prime_t);
